@@ -17,28 +17,28 @@ import (
 )
 
 type Options struct {
-	Repo     string
-	Specs    string
-	Out      string
-	Prop     string
-	Tier     string
-	Funcs    string
-	Verbose  bool
-	DumpSSA  string
-	Timeout  int
-	Agree    bool
-	Jobs     int
-	Sweep    bool
-	Solver   string
-	NoCache  bool
+	Repo           string
+	Specs          string
+	Out            string
+	Prop           string
+	Tier           string
+	Funcs          string
+	Verbose        bool
+	DumpSSA        string
+	Timeout        int
+	Agree          bool
+	Jobs           int
+	Sweep          bool
+	Solver         string
+	NoCache        bool
 	UpdateBaseline bool
-	Seed     int
-	NoReplay bool
-	Keep     bool
-	Frame    string
-	Show     string
-	Explain  bool
-	NilAssumed bool
+	Seed           int
+	NoReplay       bool
+	Keep           bool
+	Frame          string
+	Show           string
+	Explain        bool
+	NilAssumed     bool
 }
 
 func main() {
